@@ -25,13 +25,13 @@ Print Assumptions C01_replay_semantics.
 
 (* ---- what each contract (C03) does to the real tree: its first event turns the tree before the operation into the
    tree after it, every event of the contract leaves the tree after it unchanged *)
-Theorem C01_contract_replay : forall C full w o w', wf_fs w -> c01_op C w o -> apply_op w o = Some w' ->
+Theorem C01_contract_replay : forall C full w o w', wf_fs w -> c01_op0 C w o -> apply_op w o = Some w' ->
   ctr_ok (c_recursive C) (c_root C) (tl (c_recursive C) (c_root C) w) (tl (c_recursive C) (c_root C) w')
          (contract (c_recursive C) full (c_root C) (w_fs w) o).
 Proof. exact ctr_ok_covered. Qed.
 Print Assumptions C01_contract_replay.
 
-(* ---- the one-operation replay law.  c01_op = C02's covered_op minus the directory renames that are not inside the
+(* ---- the one-operation replay law.  c01_op0 = C02's covered_op minus the directory renames that are not inside the
    tree of a recursive watch (Touch, Write, Chmod of a file or a directory other
    than the root, Unlink, Mkdir, Rmdir, Rename of a file - inside / out = deleted / in = created / replacing a file,
    normal and full emitter -, Rename of a directory inside the tree of a recursive watch to a fresh name = Moved +
@@ -45,6 +45,36 @@ Theorem C01_replay_step : forall C full w k r o w' t, c_faults C = [] -> c_mask 
     TInv (c_recursive C) (c_root C) (replay (c_recursive C) (c_root C) t (delivered C full w' raws)) w'.
 Proof. exact replay_step. Qed.
 Print Assumptions C01_replay_step.
+
+(* c01_op = c01_op0 (above: the operations whose delivered events are C03's contract) or c01_in: a directory - with
+   whatever it contains - moved INTO the tree of a recursive watch from outside, to a fresh name.  Its events are
+   DirCreated(q) [full emitter: DirMoved(None, q)], DirModified(parent), one synthetic created event per descendant
+   (generate_sub_created_events over os.walk(q), C14_created); os.walk lists exactly the entries below q with their kinds
+   (C01_movein_listing), so the replay inserts exactly the sub-tree that the rename put below q (C01_movein_sem). *)
+Theorem C01_movein_listing : forall w q, wf_fs w -> fisdir q (w_fs w) = true -> forall x v,
+  In (x, v) (map (fun d : kind * list bytes => (q ++ relsuffix (snd d), kdir (fst d))) (desc [] (content (w_fs w) q))) <->
+  exists e, In e (w_fs w) /\ f_path e = x /\ f_dir e = v /\ under q x = true.
+Proof. exact content_listing. Qed.
+Print Assumptions C01_movein_listing.
+
+Theorem C01_replay_step_in : forall C full w k r p q ep w' t, c_faults C = [] -> c_mask C = WATCHDOG_ALL -> RSync C w k r ->
+  npath p -> npath q -> c_recursive C = true -> c_fix_movein C = true ->
+  flookup p (w_fs w) = Some ep -> f_dir ep = true -> ~ scope C p -> under p (c_root C) = false -> scope C q ->
+  flookup q (w_fs w) = None -> apply_op w (Rename p q) = Some w' -> TInv (c_recursive C) (c_root C) t w ->
+  let k1 := kernel_op k (w_fs w) (Rename p q) in
+  exists r' k' raws,
+    read_batch C (w_fs w') (r, drainq k1, []) (k_queue k1) = Done (r', k', raws) /\ RSync C w' k' r' /\
+    deliver_one C full w k r (Rename p q) = Some (delivered C full w' raws) /\
+    TInv (c_recursive C) (c_root C) (replay (c_recursive C) (c_root C) t (delivered C full w' raws)) w'.
+Proof. exact replay_step_in. Qed.
+Print Assumptions C01_replay_step_in.
+
+(* the delivered stream of a moved-in directory, exactly *)
+Theorem C01_movein_delivered : forall C full w' wd c q, c_recursive C = true ->
+  delivered C full w' [{| r_wd := wd; r_mask := N.lor IN_MOVED_TO IN_ISDIR; r_cookie := c; r_name := basename q; r_path := q |}]
+  = movein_events full q (content (w_fs w') q).
+Proof. exact delivered_movein. Qed.
+Print Assumptions C01_movein_delivered.
 
 (* ---- sequential histories of any length over trees of any size: every operation is followed by a read of the
    whole kernel queue and the emission of the grouped items ([drun] accumulates the stream) *)
@@ -188,7 +218,7 @@ Definition tree_eq (a b : tree) : Prop := forall p, alookup beqb p a = alookup b
    followed by a full drain of the Pipeline model (ARead of the whole kernel queue, then AEmit / ATick until the
    delay queue is empty).
    MISSING relative to C01_sequential_partial: (a) the operation kinds outside c01_x - a directory moved into the
-   tree (synthetic created events for its content), a directory moved out onto an existing name, a directory renamed
+   tree over an empty directory, a directory moved out onto an existing name, a directory renamed
    over an empty directory, an operation inside a directory that has just left the tree (before the next record),
    directory renames under a non-recursive watch or entirely outside the tree (C02 covers their watch state, their
    replay is not proved), Chmod of the root; (b) [seq_run]'s drain (AEmit / ATick driven by the queue) instead of the
@@ -279,24 +309,24 @@ Proof.
   assert (Nb : forall m n, valid_name [m] = true -> valid_name [n] = true -> npath (sub (sub pR m) n)).
   { intros. apply npath_sub; [apply npath_gpath; now apply Na | assumption]. }
   unfold c01_ops.
-  eapply ops_c01_cons; [vm_compute; reflexivity | split; [apply co_mkdir; now apply Na | exact I] |].
-  eapply ops_c01_cons; [vm_compute; reflexivity | split; [apply co_mkdir; now apply Nb | exact I] |].
-  eapply ops_c01_cons; [vm_compute; reflexivity | split; [apply co_quiet; [exact I | now apply Nb] | exact I] |].
-  eapply ops_c01_cons; [vm_compute; reflexivity | split; [apply co_quiet; [exact I | now apply Nb] | exact I] |].
-  eapply ops_c01_cons; [vm_compute; reflexivity | split; [apply co_quiet; [exact I | now apply Nb] | vm_compute; discriminate] |].
-  eapply ops_c01_cons; [vm_compute; reflexivity | split; [apply co_quiet; [exact I | now apply Na] | vm_compute; discriminate] |].
-  eapply ops_c01_cons; [vm_compute; reflexivity | split; [|intros _; split; [right; vm_compute; reflexivity | split; [reflexivity | vm_compute; reflexivity]]] |].
+  eapply ops_c01_cons; [vm_compute; reflexivity | left; split; [apply co_mkdir; now apply Na | exact I] |].
+  eapply ops_c01_cons; [vm_compute; reflexivity | left; split; [apply co_mkdir; now apply Nb | exact I] |].
+  eapply ops_c01_cons; [vm_compute; reflexivity | left; split; [apply co_quiet; [exact I | now apply Nb] | exact I] |].
+  eapply ops_c01_cons; [vm_compute; reflexivity | left; split; [apply co_quiet; [exact I | now apply Nb] | exact I] |].
+  eapply ops_c01_cons; [vm_compute; reflexivity | left; split; [apply co_quiet; [exact I | now apply Nb] | vm_compute; discriminate] |].
+  eapply ops_c01_cons; [vm_compute; reflexivity | left; split; [apply co_quiet; [exact I | now apply Na] | vm_compute; discriminate] |].
+  eapply ops_c01_cons; [vm_compute; reflexivity | left; split; [|intros _; split; [right; vm_compute; reflexivity | split; [reflexivity | vm_compute; reflexivity]]] |].
   { eapply co_rename_dir; try (now apply Na); try reflexivity; try (vm_compute; reflexivity);
       try (right; vm_compute; reflexivity); try (vm_compute; discriminate). }
-  eapply ops_c01_cons; [vm_compute; reflexivity | split; [|intros H; vm_compute in H; discriminate] |].
+  eapply ops_c01_cons; [vm_compute; reflexivity | left; split; [|intros H; vm_compute in H; discriminate] |].
   { eapply co_rename_file; try (now apply Na); try (now apply Nb); try (vm_compute; reflexivity). }
-  eapply ops_c01_cons; [vm_compute; reflexivity | split; [|intros H; vm_compute in H; discriminate] |].
+  eapply ops_c01_cons; [vm_compute; reflexivity | left; split; [|intros H; vm_compute in H; discriminate] |].
   { eapply co_rename_file; try (now apply Na); try (now apply No); try (vm_compute; reflexivity). }
-  eapply ops_c01_cons; [vm_compute; reflexivity | split; [|intros H; vm_compute in H; discriminate] |].
+  eapply ops_c01_cons; [vm_compute; reflexivity | left; split; [|intros H; vm_compute in H; discriminate] |].
   { eapply co_rename_file; try (now apply No); try (now apply Nb); try (vm_compute; reflexivity). }
-  eapply ops_c01_cons; [vm_compute; reflexivity | split; [apply co_quiet; [exact I | now apply Nb] | exact I] |].
-  eapply ops_c01_cons; [vm_compute; reflexivity | split; [apply co_rmdir; [now apply Nb | vm_compute; discriminate] | exact I] |].
-  eapply ops_c01_cons; [vm_compute; reflexivity | split; [apply co_rmdir; [now apply Na | vm_compute; discriminate] | exact I] |].
+  eapply ops_c01_cons; [vm_compute; reflexivity | left; split; [apply co_quiet; [exact I | now apply Nb] | exact I] |].
+  eapply ops_c01_cons; [vm_compute; reflexivity | left; split; [apply co_rmdir; [now apply Nb | vm_compute; discriminate] | exact I] |].
+  eapply ops_c01_cons; [vm_compute; reflexivity | left; split; [apply co_rmdir; [now apply Na | vm_compute; discriminate] | exact I] |].
   exact I.
 Qed.
 
@@ -327,24 +357,66 @@ Proof.
   assert (No : forall n, valid_name [n] = true -> npath (sub pO n)) by (intros; now apply npath_sub).
   assert (NS : forall p, ~ scope (cfgo true) (sub pO p)) by (intros p [H|H]; vm_compute in H; discriminate).
   unfold f10b_ops.
-  eapply ops_x1_cons; [vm_compute; reflexivity | apply c1_op; split; [apply co_mkdir; now apply Na | exact I] |].
+  eapply ops_x1_cons; [vm_compute; reflexivity | apply c1_op; left; split; [apply co_mkdir; now apply Na | exact I] |].
   eapply ops_x1_cons; [vm_compute; reflexivity | |].
   { eapply c1_out; try (now apply Na); try (now apply No); try reflexivity; try (vm_compute; reflexivity);
       try (right; vm_compute; reflexivity); try (vm_compute; discriminate). apply NS. }
   vm_compute hot_next.
   eapply ops_x1_cons; [vm_compute; reflexivity | |].
-  { split; [split; [apply co_mkdir; now apply Na | exact I]|]. split.
+  { split; [left; split; [apply co_mkdir; now apply Na | exact I]|]. split.
     - exists pR. split; [now left|]. split; [now left | reflexivity].
     - intros d [<-|[]]. vm_compute. reflexivity. }
   vm_compute hot_next.
   eapply ops_x1_cons; [vm_compute; reflexivity | |].
-  { apply c1_op. split; [|intros _; split; [right; vm_compute; reflexivity | split; [reflexivity | vm_compute; reflexivity]]].
+  { apply c1_op. left. split; [|intros _; split; [right; vm_compute; reflexivity | split; [reflexivity | vm_compute; reflexivity]]].
     eapply co_rename_dir; try (now apply Na); try reflexivity; try (vm_compute; reflexivity);
       try (right; vm_compute; reflexivity); try (vm_compute; discriminate). }
   exact I.
 Qed.
-(* the F10d history contains a directory moved INTO the tree: C02 covers it (C02_f10_ops_x_nonvacuous); its replay
-   (synthetic created events) is not proved in general - C01_f10_repaired above is the computed instance *)
+(* the F10d history  mkdir R/b; mkdir R/b/b; mv R/b/b O/x; mv O/x R/n; mv R/b R/m; touch R/n/f  contains a directory
+   moved out and moved back IN under another name (right after the move-out): it is a history of the replay law *)
+Example C01_f10d_ops_x1 : ops_x1 (cfgo true) w0 None f10d_ops.
+Proof.
+  assert (GR : gpath pR) by (split; [discriminate | reflexivity]).
+  assert (GO : gpath pO) by (split; [discriminate | reflexivity]).
+  assert (Na : forall n, valid_name [n] = true -> npath (sub pR n)) by (intros; now apply npath_sub).
+  assert (No : forall n, valid_name [n] = true -> npath (sub pO n)) by (intros; now apply npath_sub).
+  assert (Nb : forall m n, valid_name [m] = true -> valid_name [n] = true -> npath (sub (sub pR m) n)).
+  { intros. apply npath_sub; [apply npath_gpath; now apply Na | assumption]. }
+  assert (NS : forall p, ~ scope (cfgo true) (sub pO p)) by (intros p [H|H]; vm_compute in H; discriminate).
+  unfold f10d_ops.
+  eapply ops_x1_cons; [vm_compute; reflexivity | apply c1_op; left; split; [apply co_mkdir; now apply Na | exact I] |].
+  eapply ops_x1_cons; [vm_compute; reflexivity | apply c1_op; left; split; [apply co_mkdir; now apply Nb | exact I] |].
+  eapply ops_x1_cons; [vm_compute; reflexivity | |].
+  { eapply c1_out; try (now apply Nb); try (now apply No); try reflexivity; try (vm_compute; reflexivity);
+      try (right; vm_compute; reflexivity); try (vm_compute; discriminate). apply NS. }
+  vm_compute hot_next.
+  eapply ops_x1_cons; [vm_compute; reflexivity | |].
+  { split; [|split].
+    - right. eexists. split; [now apply No|]. split; [now apply Na|]. split; [reflexivity|]. split; [reflexivity|].
+      split; [vm_compute; reflexivity|]. split; [reflexivity|]. split; [apply NS|]. split; [vm_compute; reflexivity|].
+      split; [right; vm_compute; reflexivity | vm_compute; reflexivity].
+    - exists pR. split; [right; now left|]. split; [now left | reflexivity].
+    - intros d [<-|[<-|[<-|[]]]]; vm_compute; reflexivity. }
+  vm_compute hot_next.
+  eapply ops_x1_cons; [vm_compute; reflexivity | |].
+  { apply c1_op. left. split; [|intros _; split; [right; vm_compute; reflexivity | split; [reflexivity | vm_compute; reflexivity]]].
+    eapply co_rename_dir; try (now apply Na); try reflexivity; try (vm_compute; reflexivity);
+      try (right; vm_compute; reflexivity); try (vm_compute; discriminate). }
+  eapply ops_x1_cons; [vm_compute; reflexivity | |].
+  { apply c1_op. left. split; [apply co_quiet; [exact I | now apply Nb] | exact I]. }
+  exact I.
+Qed.
+
+(* hence - as an INSTANCE of C01_from_start_partial, not by computing the run - the replay of the stream delivered for
+   the F10d history is the final tree (normal and full emitter) *)
+Example C01_f10d_instance : forall full,
+  exists r0 k0 w' k' r' out, construct (cfgo true) kinit (w_fs w0) = Some (r0, k0) /\
+    drun (cfgo true) full w0 k0 r0 f10d_ops [] = Some (w', k', r', out) /\
+    forall x, alookup beqb x (replay true pR (tree_of true pR w0) out) = alookup beqb x (tree_of true pR w').
+Proof.
+  intros full. exact (C01_from_start_partial (cfgo true) full eq_refl eq_refl eq_refl f10d_ops w0 w0_wf eq_refl C01_f10d_ops_x1).
+Qed.
 
 
 (* ================================================================== how the kernel's buffer is split between reads *)
